@@ -1,6 +1,6 @@
-(* Proofs/C04_Table3.v - the inventory table of Proofs/C04_Table2.v with real claims on ten more of the rows that still
+(* Proofs/C04_Table3.v - the inventory table of Proofs/C04_Table2.v with real claims on eleven more of the rows that still
    carried the trivial one (task c04rows).
-   C04_Table2.table2 leaves 33 of the 167 rows with the claim True: 27 KByType rows, 2 KDocumented, 4 KHarness.  Ten of the
+   C04_Table2.table2 leaves 33 of the 167 rows with the claim True: 27 KByType rows, 2 KDocumented, 4 KHarness.  Eleven of the
    27 KByType functions DO have a Gallina model; this file replaces their trivial claim by a statement on that model:
      - Url::port                        (UrlRecord.port): on a well-formed record (wf_b) the port is a u16;
      - Url::has_host                    (UrlRecord.has_host): false exactly when Url::host() is Some None - it never
@@ -17,18 +17,21 @@
      - Serializer::encoding_override    (FormUrlencoded.ser_encoding_override): the one Serializer method that has NO
                                         panic outcome, even after finish(); target and start position unchanged;
      - Decoder::new                     (Base64.decoder_new): the three counters start at 0 - inside u32 / u8 / u8 -
-                                        and nothing has been written to the sink.
+                                        and nothing has been written to the sink;
+     - DataUrl::mime_type               (DataUrl.mime_type): on a result of DataUrl::process it is the first component
+                                        of parse_header on the text between "data:" and the first comma.
    table3 is COMPUTED from table2 and the list `overrides3` as table2 is from table; kinds are those of table2 (the new
-   rows get KRange).  trivial_rows3_eq lists, by name and in source order, the 23 rows that stay trivial;
+   rows get KRange).  trivial_rows3_eq lists, by name and in source order, the 22 rows that stay trivial;
    why_trivial gives the reason of each one and why_total checks that every such row has a reason. *)
 From Coq Require Import String Ascii.
 From RU Require Import Base.Prelude Base.Utf8 Gen.Tables Model.HostT Model.UrlRecord Model.Parser Model.WF Model.Origin.
-From RU Require Base.Outcome_c15 Model.FormUrlencoded Model.Base64.
+From RU Require Base.Outcome_c15 Model.FormUrlencoded Model.Base64 Model.Mime Model.DataUrl.
 From RU Require Proofs.C04_Inventory Proofs.C04_Table Proofs.C04_Table2 Proofs.C04_Utf8.
 
 Inductive claim3_id :=
 | R_old (q : C04_Table2.claim2_id)
-| R_port | R_has_host | R_is_tuple | R_origin_ascii | R_scheme_type | R_alpha | R_wdl | R_ser_enc | R_decoder_new.
+| R_port | R_has_host | R_is_tuple | R_origin_ascii | R_scheme_type | R_alpha | R_wdl | R_ser_enc | R_decoder_new
+| R_mime_type.
 
 Definition claim3_trivial (q : claim3_id) : bool :=
   match q with R_old i => C04_Table2.claim2_trivial i | _ => false end.
@@ -88,6 +91,15 @@ Definition claim3 (q : claim3_id) : Prop :=
         Base64.d_sink (Base64.decoder_new w) = w
         /\ Base64.d_buf (Base64.decoder_new w) = 0 /\ Base64.d_len (Base64.decoder_new w) = 0
         /\ Base64.d_pad (Base64.decoder_new w) = 0
+  | R_mime_type =>
+      (* DataUrl::mime_type on a result of DataUrl::process: the record it hands out is the first component of
+         parse_header on the header text between "data:" and the first comma (C17_mime_type ties that one to Fetch),
+         the base64 flag is the second, the body is what follows the comma *)
+      forall input u, DataUrl.process input = Mime.Ok (inl u) ->
+        exists after h B, DataUrl.pretend_parse_data_url (utf8_encode input) = Mime.Ok (Some after)
+          /\ DataUrl.find_comma_before_fragment after = Mime.Ok (Some (h, B))
+          /\ DataUrl.parse_header h = Mime.Ok (DataUrl.mime_type u, DataUrl.du_base64 u)
+          /\ DataUrl.du_encoded_body_plus_fragment u = B
   end.
 
 (* ---------------------------------------------------------------- proofs *)
@@ -211,6 +223,22 @@ Proof.
   - split; (split; [discriminate|]); [intros (a' & b' & H & _) | intros (a' & H & _)]; discriminate.
 Qed.
 
+Lemma mime_type_claim input u : DataUrl.process input = Mime.Ok (inl u) ->
+  exists after h B, DataUrl.pretend_parse_data_url (utf8_encode input) = Mime.Ok (Some after)
+    /\ DataUrl.find_comma_before_fragment after = Mime.Ok (Some (h, B))
+    /\ DataUrl.parse_header h = Mime.Ok (DataUrl.mime_type u, DataUrl.du_base64 u)
+    /\ DataUrl.du_encoded_body_plus_fragment u = B.
+Proof.
+  unfold DataUrl.process, DataUrl.process_bytes. intros H.
+  destruct (DataUrl.pretend_parse_data_url (utf8_encode input)) as [[after|]| |] eqn:E1; cbn [Mime.bind] in H;
+    try discriminate H.
+  destruct (DataUrl.find_comma_before_fragment after) as [[[h B]|]| |] eqn:E2; cbn [Mime.bind] in H; try discriminate H.
+  destruct (DataUrl.parse_header h) as [[m b]| |] eqn:E3; cbn [Mime.bind fst snd] in H; try discriminate H.
+  inversion H; subst. exists after, h, B. unfold DataUrl.mime_type.
+  cbn [DataUrl.du_mime_type DataUrl.du_base64 DataUrl.du_encoded_body_plus_fragment].
+  repeat split; assumption.
+Qed.
+
 Theorem claims3_hold : forall q, claim3 q.
 Proof.
   destruct q; cbn [claim3].
@@ -224,6 +252,7 @@ Proof.
   - exact wdl_claim.
   - intros T s o. eexists. split; [reflexivity|]. split; reflexivity.
   - intros W w. repeat split.
+  - exact mime_type_claim.
 Qed.
 
 (* ---------------------------------------------------------------- the table *)
@@ -242,6 +271,7 @@ Definition overrides3 : list (string * string * claim3_id * string) := [
   ("url", "parser::ascii_alpha", R_alpha, "C04_no_panic_inventory3 (claim R_alpha)");
   ("url", "parser::is_windows_drive_letter", R_wdl, "C04_no_panic_inventory3 (claim R_wdl)");
   ("form_urlencoded", "Serializer::encoding_override", R_ser_enc, "C04_no_panic_inventory3 (claim R_ser_enc)");
+  ("data_url", "DataUrl::mime_type", R_mime_type, "C04_no_panic_inventory3 (claim R_mime_type) + C17_mime_type");
   ("data_url", "Decoder::new", R_decoder_new, "C04_no_panic_inventory3 (claim R_decoder_new)")
 ].
 
@@ -268,8 +298,7 @@ Definition why_trivial : list (string * string * string) := [
   ("idna", "Config::check_hyphens", "builder: sets one bool of Uts46.config; no model function");
   ("idna", "Config::use_idna_2008_rules", "KDocumented: documented panic, probed by the harness; no model");
   ("idna", "AsciiDenyList::new", "KDocumented: documented panic of a const fn, probed by the harness; no model");
-  ("idna", "Uts46::new", "constructor of a unit-like struct; no model");
-  ("data_url", "DataUrl::mime_type", "field read &self.mime_type = DataUrl.du_mime_type; nothing to state beside C17 / C19 on the parse result")
+  ("idna", "Uts46::new", "constructor of a unit-like struct; no model")
 ].
 Local Close Scope string_scope.
 
@@ -336,10 +365,10 @@ Proof. apply Forall_forall. intros r _. apply claims3_hold. Qed.
 Definition model_rows : nat := length (filter (fun r => negb (claim3_trivial (r3_claim r))) table3).
 
 Theorem table3_counts :
-  length table3 = 167%nat /\ length overrides3 = 10%nat /\ model_rows = 144%nat
+  length table3 = 167%nat /\ length overrides3 = 11%nat /\ model_rows = 145%nat
   /\ count_kind3 (C04_Table2.K C04_Table.KTheorem) = 76%nat /\ count_kind3 (C04_Table2.K C04_Table.KExact) = 20%nat
-  /\ count_kind3 (C04_Table2.K C04_Table.KOutside) = 17%nat /\ count_kind3 C04_Table2.KRange = 31%nat
-  /\ count_kind3 (C04_Table2.K C04_Table.KByType) = 17%nat /\ count_kind3 (C04_Table2.K C04_Table.KDocumented) = 2%nat
+  /\ count_kind3 (C04_Table2.K C04_Table.KOutside) = 17%nat /\ count_kind3 C04_Table2.KRange = 32%nat
+  /\ count_kind3 (C04_Table2.K C04_Table.KByType) = 16%nat /\ count_kind3 (C04_Table2.K C04_Table.KDocumented) = 2%nat
   /\ count_kind3 (C04_Table2.K C04_Table.KHarness) = 4%nat.
 Proof. vm_compute. repeat split. Qed.
 
@@ -357,6 +386,6 @@ Fixpoint pairs_eqb (a b : list (string * string)) : bool :=
 
 Definition why_total_b : bool :=
   pairs_eqb trivial_rows3 (map (fun w => (fst (fst w), snd (fst w))) why_trivial)
-  && Nat.eqb (length why_trivial) 23.
+  && Nat.eqb (length why_trivial) 22.
 Theorem why_total : why_total_b = true.
 Proof. vm_compute. reflexivity. Qed.
